@@ -23,7 +23,8 @@ REQUIRED_MONITORS = ('tiling_vs_reference', 'random_access_vs_reference', 'itera
 REQUIRED_CLASSES = ('layout:blocks', 'layout:alternating', 'layout:same-name-different-size',
                     'layout:same-name-size-different-atoms', 'layout:single-atom', 'layout:giant', 'layout:digit-names',
                     'layout:resid-wrap', 'layout:constant-name-increasing-number', 'vel:yes', 'vel:no',
-                    'op:index', 'op:negative-index', 'op:slice', 'op:slice-negative-step', 'op:next', 'op:out-of-range')
+                    'op:index', 'op:negative-index', 'op:slice', 'op:slice-negative-step', 'op:next', 'op:out-of-range',
+                    'object:fresh-never-walked', 'object:walked-completely-before')
 RULE = ('files: residue layout class x residue sizes 1..12 x 1..400 residues (thorough: up to 5000) x velocities; access '
         'histories of up to 200 operations. Non-trivial: at least 3 residues and at least 2 residue kinds or sizes. '
         'distinct = distinct (layout, velocities, residue-count bucket, history signature)')
@@ -198,7 +199,18 @@ def run_case(ctx, case):
         ctx.violation('composition-wrong', f'{dict(s.composition)} != {dict(comp)}', witness=w)
     n = len(want)
     kinds = {(r[0][1], len(r)) for r in want}
-    # 2. access history
+    # 2. access history: on the object that was just iterated completely, or on a fresh object that has never been
+    #    walked to the end (lazily built state of the object must not matter)
+    if i % 2:
+        del s
+        try:
+            s = SystemGro(path)
+        except Exception as exc:  # noqa
+            ctx.violation(f'systemgro-raises:{type(exc).__name__}:{layout}', str(exc)[:200], witness=w)
+            return
+        ctx.hit('object:fresh-never-walked')
+    else:
+        ctx.hit('object:walked-completely-before')
     iters = []
     history = []
     sig = Counter()
